@@ -9,7 +9,7 @@ RULE = ('class = (hash, |K| class around 0/1/digest/block/2*block/3*block, |M| c
         'where hashlib has the hash, RFC 2104 formula over the own reference hash otherwise (MD4, SHA-0, BLAKE-n) and as cross-check')
 ASSUMPTIONS = ['stdlib hmac/hashlib', 'own MD/SHA and BLAKE references (self-tested)']
 ANCHORS = [('hmac.py', 'HMAC.setkey'), ('hmac.py', 'HMAC.__call__'), ('hmac.py', 'HMAC.__init__')]
-REQUIRED = ['hmac==rfc2104', 'hmac==stdlib', 'setkey-replaces-key', 'mac-length']
+REQUIRED = ['siblings:hmac==rfc2104', 'hmac==rfc2104', 'hmac==stdlib', 'setkey-replaces-key', 'mac-length']
 NSHARDS = 14
 SAN = {'quick': (2, 30), 'thorough': (2, 30)}
 HASHES = c01.ALGS + ['blake224', 'blake256', 'blake384', 'blake512']
@@ -53,6 +53,8 @@ def cases(tier, rng):
             for ml in mls:
                 for pat in (('rand',) if tier == 'quick' else ('rand', 'zero', 'ones')):
                     yield {'k': 'mac', 'h': name, 'kl': kl, 'ml': ml, 'pat': pat}
+        for j in range(3 if tier == 'quick' else 20):
+            yield {'k': 'siblings', 'h': name, 'j': j}
         for kl1 in (0, 5, B, B + 9, 3 * B):
             for kl2 in (0, 7, B, B + 1, 2 * B + 3):
                 yield {'k': 'rekey', 'h': name, 'kl1': kl1, 'kl2': kl2}
@@ -81,6 +83,17 @@ def run(case, ctx, rng):
             M2 = pattern(rng, case['ml'] + 3, 'rand')
             ctx.eq('hmac==rfc2104', call(mac, M2), ref(name, K, M2), h=name, K=K, M=M2, reuse=1)
             ctx.eq('hmac==rfc2104', call(mac, M), ref(name, K, M), h=name, K=K, M=M, reuse=2)
+    elif case['k'] == 'siblings':
+        from vmon.core import siblings
+        ctx.cls((name, 'siblings', case['j'] % 3))
+        shared = make(name)                      # one hash object shared by several MAC objects
+        specs = []
+        for t, kl in enumerate(rng.sample([0, 3, D, B, B + 1, 2 * B + 5], 4)):
+            K = rng.randbytes(kl); M1 = rng.randbytes(rng.choice([0, 10, B + 3])); M2 = rng.randbytes(20)
+            hobj = shared if t % 2 == 0 else None
+            specs.append(('HMAC(%s,|K|=%d%s)' % (name, kl, ',shared hash' if hobj is not None else ''), (lambda K=K, hobj=hobj: HMAC(hobj if hobj is not None else make(name), K)),
+                          [('mac(M1)', (lambda o, M=M1: o(M)), ref(name, K, M1)), ('mac(M2)', (lambda o, M=M2: o(M)), ref(name, K, M2))]))
+        siblings(ctx, rng, 'siblings:hmac==rfc2104', specs, late=specs.pop(), h=name)
     else:
         K1 = rng.randbytes(case['kl1']); K2 = rng.randbytes(case['kl2']); M = rng.randbytes(rng.choice([0, 3, B, B + 1]))
         ctx.cls((name, 'rekey', case['kl1'], case['kl2']))
